@@ -21,6 +21,7 @@ EXTRA = {
     "revert-fix1": ["C06"], "revert-fix2": ["C02"], "revert-fix3": ["C11"], "revert-fix4": ["C10"], "revert-fix5": ["C13", "C05"],
     "revert-fix6": ["C14"], "revert-fix7": ["C15"], "revert-fix8": ["C11"], "revert-fix9": ["C14"], "revert-fix10": ["C06"], "revert-fix11": ["C10"], "revert-fix12": ["C11", "C04", "C15"],
     "c02-m3": ["C02", "C07"], "c02-m4": ["C02", "C12"], "c16-m5": ["C16", "C05"], "c03-m6": ["C03", "C08"], "c05-m4": ["C05", "C13"], "c05-m5": ["C05", "C03", "C13"],
+    "c03-m7": ["C03", "C04"], "c07-m7": ["C07", "C12"], "c09-m8": ["C09", "C10"],
     "c04-m6": ["C04", "C15"], "c09-m6": ["C09", "C15"], "c07-m2": ["C03", "C13"], "c07-m1": ["C07", "C08"], "c07-m5": ["C12"], "c08-m3": ["C08", "C07"], "c05-m1": ["C05", "C13"], "c03-inc-before-test": ["C03", "C05"],
 }
 # behaviour-preserving rewrites: every listed check must stay silent
